@@ -37,7 +37,8 @@ def cases(draw, big=False):
     if zero_bit:
         w_prec = [0] + w_prec if draw(st.booleans()) else w_prec + [0]
     a_prec = [8] if ne16 else draw(mu.precisions)
-    t = draw(st.floats(min_value=math.log(0.05), max_value=math.log(20.0)))
+    t = draw(st.one_of(st.floats(min_value=math.log(0.05), max_value=math.log(20.0)),
+                      st.sampled_from([math.log(0.05), math.log(0.05), math.log(20.0)])))  # + the ends
     return {'spec': spec, 'w_prec': w_prec, 'a_prec': a_prec, 'per_channel': per_channel,
             'costs': costs, 'dict': len(costs) > 1 or draw(st.booleans()),
             'mode': draw(st.sampled_from(['eval', 'eval', 'train-hard'])),
@@ -46,7 +47,11 @@ def cases(draw, big=False):
             # Gumbel sampling configured (it must not matter in eval mode)
             'gumbel': draw(st.booleans()),
             # another assignment was evaluated (eval forward + cost read) before this one
-            'prior': draw(st.booleans())}
+            'prior': draw(st.booleans()),
+            # export() is called (and its result dropped) before the cost is evaluated
+            'export_first': draw(st.booleans()),
+            # the network is handed over in training mode (the default state of a new module)
+            'wrap_train': draw(st.booleans())}
 
 
 def mps_alive(spec, summ, res):
@@ -109,7 +114,8 @@ def oracle(case) -> Result:
                            per_channel=case['per_channel'], cost=cost,
                            temperature=case['temperature'],
                            hard_softmax=(case['mode'] == 'train-hard'),
-                           gumbel_softmax=bool(case.get('gumbel')) and case['mode'] == 'eval')
+                           gumbel_softmax=bool(case.get('gumbel')) and case['mode'] == 'eval',
+                           wrap_train=bool(case.get('wrap_train')))
     if case.get('prior'):
         mu.earlier_assignment(mps, x0, case['aseed'])
         res.ev('earlier-assignment-evaluated-first')
@@ -118,6 +124,12 @@ def oracle(case) -> Result:
         mps.eval()
     else:
         mps.train()
+    if case.get('export_first'):
+        try:
+            mps.export()          # an observer; whether it succeeds is the business of C02 / C10
+            res.ev('exported-before-the-cost-was-read')
+        except Exception:  # noqa
+            res.ev('export-raised-before-the-cost-was-read')
     with torch.no_grad():
         if must(res, 'mps-forward', mps, x0) is None:
             return res
